@@ -172,6 +172,9 @@ func (c *PathCtx) evalCond(cond ssa.Value) (val bool, ok bool) {
 
 // NilState classifies an interface/pointer value on this path: +1 nil, -1 non-nil, 0 unknown.
 func (c *PathCtx) NilState(v ssa.Value) int {
+	// the path's own phi selection first: canonPhi (inside deref) describes a phi only at its uses
+	// beyond the dispatch block, not at the dispatch itself
+	v = c.Resolve(v)
 	v = c.Resolve(deref(v))
 	if isNilConst(v) {
 		return +1
@@ -180,6 +183,11 @@ func (c *PathCtx) NilState(v ssa.Value) int {
 	case *ssa.MakeInterface, *ssa.Alloc, *ssa.MakeClosure, *ssa.Function:
 		_ = x
 		return -1
+	case *ssa.Call:
+		// EXT: fmt.Errorf and errors.New never return nil
+		if isPkgFuncCall(x, "fmt", "Errorf") || isPkgFuncCall(x, "errors", "New") {
+			return -1
+		}
 	case *ssa.UnOp:
 		// load of a package-level error variable (ErrXxx): non-nil sentinel
 		if x.Op == token.MUL {
@@ -238,7 +246,10 @@ type PathQuery struct {
 	Fn   *ssa.Function
 	K    *keyer
 	From ssa.Instruction // exploration starts after this instruction; nil = function entry
-	Init uint64
+	// StartBlock (when From is nil): exploration starts at the first instruction of this block, with
+	// the conditions that dominate it
+	StartBlock *ssa.BasicBlock
+	Init       uint64
 	// Step is called for every instruction on the path (deferred=true when a
 	// deferred call is executed at rundefers; the instruction is then the *ssa.Defer).
 	// It returns the new client state and whether to stop exploring this path.
@@ -305,23 +316,22 @@ func (q *PathQuery) Run() {
 	for k, v := range q.InitAssign {
 		start.assign[k] = v
 	}
-	if q.From != nil {
-		start.b = q.From.Block()
-		start.i = indexInBlock(q.From) + 1
+	if q.From != nil || q.StartBlock != nil {
+		if q.From != nil {
+			start.b = q.From.Block()
+			start.i = indexInBlock(q.From) + 1
+		} else {
+			start.b = q.StartBlock
+			start.i = 0
+		}
 		// conditions that hold whenever From executes: dominating single-predecessor branch edges
-		for x := start.b; x != nil; x = x.Idom() {
-			if len(x.Preds) != 1 {
-				continue
+		for _, ec := range allEntryConds(start.b) {
+			key, pol := q.K.condKey(ec.Cond)
+			if !ec.Val {
+				pol = !pol
 			}
-			pp := x.Preds[0]
-			if iff, ok := pp.Instrs[len(pp.Instrs)-1].(*ssa.If); ok && pp.Succs[0] != pp.Succs[1] {
-				key, pol := q.K.condKey(iff.Cond)
-				if pp.Succs[0] != x {
-					pol = !pol
-				}
-				if _, set := start.assign[key]; !set {
-					start.assign[key] = pol
-				}
+			if _, set := start.assign[key]; !set {
+				start.assign[key] = pol
 			}
 		}
 	}
@@ -640,4 +650,26 @@ func inLoop(loops []*Loop, b *ssa.BasicBlock) *Loop {
 		}
 	}
 	return best
+}
+
+// allPathsReject: every path that starts at block b (entered with the conditions that dominate it)
+// ends in a return whose error result is known non-nil on that path.  n is the number of returning
+// paths seen; bad is a return that may report success (nil if none).
+func allPathsReject(p *Prog, fn *ssa.Function, b *ssa.BasicBlock) (ok bool, n int, bad *ssa.Return) {
+	idx := errorResultIndex(fn)
+	if idx < 0 {
+		return false, 0, nil
+	}
+	q := &PathQuery{P: p, Fn: fn, StartBlock: b, MaxStates: 6000}
+	q.AtReturn = func(ret *ssa.Return, st uint64, c *PathCtx) {
+		n++
+		if c.NilState(ret.Results[idx]) != -1 && bad == nil {
+			bad = ret
+		}
+	}
+	q.Step = func(in ssa.Instruction, deferred bool, st uint64, c *PathCtx) (uint64, bool) {
+		return st, bad != nil
+	}
+	q.Run()
+	return n > 0 && bad == nil && !q.Exhausted, n, bad
 }
